@@ -50,7 +50,9 @@ def readOff (node : Hash) : List (Hash × (Nat × List Hash)) → Nat × List Ha
   | e :: r => if e.1 = node then e.2 else readOff node r
 
 /-- the `for _, w := range fresh` guard loop: timestamp, same day as the first, hash has a value -/
-def badWork (d : Nat) (w : Snap) : Bool := w.ts == 0 || day w != d || w.hash == 0
+def badWork (d : Nat) (w : Snap) : Prop := w.ts = 0 ∨ day w ≠ d ∨ w.hash = 0
+
+instance (d : Nat) (w : Snap) : Decidable (badWork d w) := by unfold badWork; exact inferInstance
 
 /-- `wm[si] += 1` over all signers of all fresh works, read at `x` -/
 def signerCount (x : Hash) (fresh : List Snap) : Nat :=
@@ -65,31 +67,37 @@ def creditSigners (node : Hash) (d : Nat) (signers : List Hash) (m : List ((Hash
 
 def allSigners (fresh : List Snap) : List Hash := (fresh.map (·.signers)).flatten
 
+/-- the snapshots of the call that are not in the checkpoint; `none` = panic
+    ("WriteRoundWork missing snapshot": a checkpointed hash is absent from the call) -/
+def freshOf (off : Nat) (osm : List Hash) (round : Nat) (snaps : List Snap) : Option (List Snap) :=
+  if round = off then
+    if ∀ id ∈ osm, id ∈ snaps.map (·.hash) then some (snaps.filter (fun ss => ss.hash ∉ osm))
+    else none
+  else some snaps
+
+/-- everything after `graphWriteWorkOffset`: the credit section; `none` = panic -/
+def creditStep (s1 : S) (node : Hash) (fresh : List Snap) (credit : Bool) : Option S :=
+  match fresh with
+  | [] => some s1
+  | f0 :: _ =>
+    if f0.signers = [] ∨ credit = false then some s1
+    else if ∃ w ∈ fresh, badWork (day f0) w then none
+    else if signerCount node fresh ≠ fresh.length then none
+    else some { s1 with
+      sign := creditSigners node (day f0) (allSigners fresh) s1.sign,
+      lead := addC (node, day f0) (signerCount node fresh) s1.lead }
+
 /-- `WriteRoundWork(nodeId, round, snapshots, credit)`; `none` = panic. -/
 def writeRoundWork (s : S) (node : Hash) (round : Nat) (snaps : List Snap) (credit : Bool) : Option S :=
-  let (off, osm) := readOff node s.off
+  let off := (readOff node s.off).1
+  let osm := (readOff node s.off).2
   if off > round then some s
   else if round > off + 1 then none
   else
-    let fresh? : Option (List Snap) :=
-      if round = off then
-        if osm.all (fun id => snaps.any (fun ss => ss.hash == id)) then
-          some (snaps.filter (fun ss => !osm.contains ss.hash))
-        else none
-      else some snaps
-    match fresh? with
+    match freshOf off osm round snaps with
     | none => none
     | some fresh =>
-      let s1 : S := { s with off := (node, (round, snaps.map (·.hash))) :: s.off }
-      match fresh with
-      | [] => some s1
-      | f0 :: _ =>
-        if f0.signers.isEmpty || !credit then some s1
-        else if fresh.any (badWork (day f0)) then none
-        else if signerCount node fresh ≠ fresh.length then none
-        else some { s1 with
-          sign := creditSigners node (day f0) (allSigners fresh) s1.sign,
-          lead := addC (node, day f0) (signerCount node fresh) s1.lead }
+      creditStep { s with off := (node, (round, snaps.map (·.hash))) :: s.off } node fresh credit
 
 inductive Op where
   | submit (node : Hash) (round : Nat) (snaps : List Snap) (credit : Bool)
